@@ -12,6 +12,7 @@ import (
 	"fmt"
 	"math/rand"
 	"sort"
+	"strconv"
 	"strings"
 	"time"
 
@@ -22,6 +23,7 @@ import (
 
 	chart "helm.sh/helm/v4/pkg/chart/v2"
 	rspb "helm.sh/helm/v4/pkg/release/v1"
+	"helm.sh/helm/v4/pkg/storage"
 	"helm.sh/helm/v4/pkg/storage/driver"
 	helmtime "helm.sh/helm/v4/pkg/time"
 
@@ -42,7 +44,9 @@ type c10Rel struct {
 }
 
 type c10Op struct {
-	// create update get delete list query; and two events outside the driver interface:
+	// create update get delete list query; last / deployed = storage.Storage.Last(Name) /
+	// .Deployed(Name) on top of the driver (the newest revision of a Query result: the order
+	// the driver lists in must not show); and two events outside the driver interface:
 	// corrupt (Secret/ConfigMap backends: an object with an undecodable body appears under the
 	// key of Name/Ver, labelled name/owner/status/version) and setns (memory: SetNamespace(NS));
 	// and the compound rmw = what upgrade/rollback/uninstall do to the previous revision:
@@ -58,8 +62,14 @@ type c10Op struct {
 }
 
 type c10Case struct {
-	Backend string  `json:"backend"` // memory secret configmap
-	Ops     []c10Op `json:"ops"`
+	Backend string  `json:"backend,omitempty"` // memory secret configmap
+	Ops     []c10Op `json:"ops,omitempty"`
+	// cases about the record codec (c10_codec.go): Kind is "b64enc", "b64dec" or "codec"
+	Kind string `json:"kind,omitempty"`
+	Data []byte `json:"data,omitempty"` // b64enc: bytes to encode; b64dec: text to decode
+	Note string `json:"note,omitempty"` // how the input was built (reported by Class)
+	Ver  int    `json:"cver,omitempty"` // codec: revision of the small release the record holds
+	Cut  int    `json:"cut,omitempty"`  // codec: position of the damage, where the note asks for one
 }
 
 type c10Out struct {
@@ -70,18 +80,20 @@ type c10Out struct {
 }
 
 type c10Obs struct {
-	Outs  []c10Out `json:"outs"`
-	Panic string   `json:"panic,omitempty"`
+	Outs  []c10Out     `json:"outs"`
+	Panic string       `json:"panic,omitempty"`
+	Codec *c10CodecObs `json:"codec,omitempty"`
 }
 
 func (*c10) ID() string        { return "C10" }
 func (*c10) CoqImport() string { return "From Helm Require Import Storage.Spec Run.RunC10." }
 func (*c10) Rule() string {
-	return "call sequences (length 4-25) of create/update/get/delete/list/query over 3 names x 4 revisions " +
-		"(names plain, dotted, containing '.v', '.v<digits>'-suffixed, 53 characters) on the real memory/Secret/ConfigMap " +
+	return "call sequences (length 4-25) of create/update/get/delete/list/query, read-modify-write and storage.Last/Deployed over 3 names x 4 revisions " +
+		"(names plain, dotted, containing '.v', '.v<digits>'-suffixed, 53 characters; one release in six carries system keys in its own label map) on the real memory/Secret/ConfigMap " +
 		"drivers (one case in four also with SetNamespace + two namespaces on memory, or records damaged behind the driver on Secret/ConfigMap), plus rich-content round trips, plus every sequence of length <= 2 (quick) / <= 3 (thorough) over a " +
-		"25-call alphabet on 2 names x 2 revisions per backend; non-trivial = at least one successful write and one read/query " +
-		"that returned a release; distinct = hash of (case, observation)"
+		"28-call alphabet on 2 names x 2 revisions per backend; one generated case in five is about the record codec: bytes through the driver's base64 encoding, texts " +
+		"(valid, with newlines, damaged, arbitrary; every text of length <= 4 / <= 6 over {Q, w, =, newline, !}) through its decoder, record texts (encoded, pre-compression, damaged in 12 ways) through decodeRelease; " +
+		"non-trivial = at least one successful write and one read/query that returned a release (codec cases: a non-empty input); distinct = hash of (case, observation)"
 }
 func (*c10) Corpus() []any {
 	mk := func(n string, v int) *c10Rel {
@@ -110,7 +122,40 @@ func (*c10) Corpus() []any {
 			{Kind: "rmw", Name: "smug-pigeon", Ver: 1, Status: "uninstalled"},
 			{Kind: "query", Query: map[string]string{"name": "smug-pigeon", "status": "uninstalled"}},
 			{Kind: "rmw", Name: "smug-pigeon", Ver: 2, Status: "failed"}, {Kind: "list"}}})
+		// a release whose own label map carries system keys (a stale name/status/owner/version as
+		// a release that came back from List/Query has, its own createdAt): the computed labels
+		// decide what selects it, Get hands back the user labels (Storage/AllExamples.v exa_ops)
+		st := mk("a.v1", 1)
+		st.NS = "team-a"
+		st.Labels = map[string]string{"team": "y", "name": "other", "status": "failed", "owner": "tiller", "createdAt": "77", "version": "9"}
+		st2 := mk("a.v1", 2)
+		st2.NS = "team-a"
+		st2.Labels = map[string]string{"modifiedAt": "5", "env": ""}
+		out = append(out, c10Case{Backend: b, Ops: []c10Op{
+			{Kind: "create", Rel: st}, {Kind: "create", Rel: st}, {Kind: "get", Name: "a.v1", Ver: 1},
+			{Kind: "query", Query: map[string]string{"status": "failed"}},
+			{Kind: "query", Query: map[string]string{"name": "a.v1", "owner": "helm", "status": "deployed"}},
+			{Kind: "rmw", Name: "a.v1", Ver: 1, Status: "superseded"},
+			{Kind: "query", Query: map[string]string{"status": "deployed"}},
+			{Kind: "query", Query: map[string]string{"status": "superseded"}},
+			{Kind: "update", Rel: st2}, {Kind: "create", Rel: st2},
+			{Kind: "rmw", Name: "a.v1", Ver: 2, Status: "failed"}, {Kind: "rmw", Name: "a.v1", Ver: 3, Status: "failed"},
+			{Kind: "list"}, {Kind: "get", Name: "a.v1", Ver: 2}, {Kind: "delete", Name: "a.v1", Ver: 1}, {Kind: "get", Name: "a.v1", Ver: 1}}})
 	}
+	for _, b := range []string{"memory", "secret", "configmap"} {
+		// storage.Last / storage.Deployed pick the newest revision whatever order the driver lists in
+		rv := func(v int, st string) *c10Rel {
+			return &c10Rel{Name: "app", NS: "default", Ver: v, Status: st, Body: uint64(10 + v)}
+		}
+		out = append(out, c10Case{Backend: b, Ops: []c10Op{
+			{Kind: "create", Rel: rv(2, "deployed")}, {Kind: "create", Rel: rv(12, "deployed")}, {Kind: "create", Rel: rv(3, "superseded")},
+			{Kind: "create", Rel: rv(1, "deployed")}, {Kind: "last", Name: "app"}, {Kind: "deployed", Name: "app"},
+			{Kind: "rmw", Name: "app", Ver: 12, Status: "failed"}, {Kind: "deployed", Name: "app"}, {Kind: "last", Name: "app"},
+			{Kind: "delete", Name: "app", Ver: 12}, {Kind: "last", Name: "app"}, {Kind: "rmw", Name: "app", Ver: 2, Status: "superseded"},
+			{Kind: "rmw", Name: "app", Ver: 1, Status: "superseded"}, {Kind: "deployed", Name: "app"},
+			{Kind: "last", Name: "ghost"}, {Kind: "deployed", Name: "ghost"}}})
+	}
+	out = append(out, c10CodecCorpus()...)
 	return out
 }
 // Exhaustive: every call sequence up to a length bound over the key space {app, a.v1} x {1, 2}
@@ -131,9 +176,12 @@ func (*c10) Exhaustive(tier string) []any {
 				c10Op{Kind: "delete", Name: n, Ver: v})
 		}
 	}
+	// a release that carries system keys in its own label map
+	alpha = append(alpha, c10Op{Kind: "create", Rel: &c10Rel{Name: "app", NS: "default", Ver: 1, Status: "deployed", Body: 6,
+		Labels: map[string]string{"team": "b", "name": "zz", "status": "failed", "createdAt": "77"}}})
 	alpha = append(alpha, c10Op{Kind: "rmw", Name: "app", Ver: 1, Status: "superseded"},
 		c10Op{Kind: "rmw", Name: "a.v1", Ver: 2, Status: "failed"},
-		c10Op{Kind: "list"},
+		c10Op{Kind: "list"}, c10Op{Kind: "last", Name: "app"}, c10Op{Kind: "deployed", Name: "app"},
 		c10Op{Kind: "query", Query: map[string]string{"name": "app"}},
 		c10Op{Kind: "query", Query: map[string]string{"name": "a.v1", "owner": "helm"}},
 		c10Op{Kind: "query", Query: map[string]string{"status": "deployed"}},
@@ -173,6 +221,7 @@ func (*c10) Exhaustive(tier string) []any {
 		}
 		rec(nil)
 	}
+	out = append(out, c10CodecExhaustive(tier)...)
 	return out
 }
 
@@ -180,6 +229,10 @@ var c10Names = []string{"app", "my.app", "a.v1", "svc.v2.beta", "x.v", strings.R
 var c10Statuses = []string{"deployed", "superseded", "failed", "pending-install", "uninstalled", "unknown", "pending-upgrade"}
 
 func (*c10) Generate(r *rand.Rand, _ int) any {
+	// one case in five is about the record codec (base64 layer, gzip-magic dispatch)
+	if r.Intn(5) == 0 {
+		return c10CodecGenerate(r)
+	}
 	c := c10Case{Backend: []string{"memory", "secret", "configmap"}[r.Intn(3)]}
 	// three names per case
 	perm := r.Perm(len(c10Names))
@@ -214,9 +267,22 @@ func (*c10) Generate(r *rand.Rand, _ int) any {
 					rel.Labels[[]string{"team", "env", "tier", "x-y.z"}[r.Intn(4)]] = []string{"a", "b", "prod", ""}[r.Intn(4)]
 				}
 			}
+			// one release in six carries system keys in its own label map (stale or foreign
+			// values: nothing but the computed labels may decide what selects the record)
+			if r.Intn(6) == 0 {
+				if rel.Labels == nil {
+					rel.Labels = map[string]string{}
+				}
+				for k := 0; k <= r.Intn(3); k++ {
+					key := []string{"name", "owner", "status", "version", "createdAt", "modifiedAt"}[r.Intn(6)]
+					rel.Labels[key] = map[string][]string{
+						"name": {"other", name}, "owner": {"tiller", "helm"}, "status": {"deployed", "failed", "superseded"},
+						"version": {"9", "1"}, "createdAt": {"77", "0"}, "modifiedAt": {"5", "0"}}[key][r.Intn(2)]
+				}
+			}
 			return rel
 		}
-		switch k := r.Intn(20); {
+		switch k := r.Intn(22); {
 		case k < 6:
 			c.Ops = append(c.Ops, c10Op{Kind: "create", Rel: mkRel()})
 		case k < 8:
@@ -229,6 +295,10 @@ func (*c10) Generate(r *rand.Rand, _ int) any {
 			c.Ops = append(c.Ops, c10Op{Kind: "delete", Name: name, Ver: ver})
 		case k < 16:
 			c.Ops = append(c.Ops, c10Op{Kind: "list"})
+		case k < 17:
+			c.Ops = append(c.Ops, c10Op{Kind: "last", Name: name})
+		case k < 18:
+			c.Ops = append(c.Ops, c10Op{Kind: "deployed", Name: name})
 		default:
 			q := map[string]string{}
 			if r.Intn(5) > 0 {
@@ -368,6 +438,11 @@ func (*c10) Execute(ci any) (res any) {
 			res = obs
 		}
 	}()
+	if c.Kind != "" {
+		obs.Codec = c10CodecExecute(c)
+		return obs
+	}
+	started := time.Now().Unix()
 	var d driver.Driver
 	cs := fake.NewSimpleClientset()
 	switch c.Backend {
@@ -414,9 +489,13 @@ func (*c10) Execute(ci any) (res any) {
 		if len(r.Labels) > 0 {
 			x.Labels = map[string]string{}
 			for k, v := range r.Labels {
-				// time-stamp labels carry wall-clock values: the key is observed, the value is not
+				// time-stamp labels written by the driver carry wall-clock values: the key is
+				// observed, the value is not; a value the release's own label map supplied
+				// (it wins over the driver's stamp) is observed as it is
 				if k == "createdAt" || k == "modifiedAt" {
-					v = "0"
+					if n, err := strconv.ParseInt(v, 10, 64); err == nil && n >= started-5 && n <= time.Now().Unix()+5 {
+						v = "0"
+					}
 				}
 				x.Labels[k] = v
 			}
@@ -483,13 +562,18 @@ func (*c10) Execute(ci any) (res any) {
 			} else {
 				out = c10Out{Kind: "ok"}
 			}
-		case "get", "delete":
+		case "get", "delete", "last", "deployed":
 			var r *rspb.Release
 			var err error
-			if o.Kind == "get" {
+			switch o.Kind {
+			case "get":
 				r, err = d.Get(c10Key(o.Name, o.Ver))
-			} else {
+			case "delete":
 				r, err = d.Delete(c10Key(o.Name, o.Ver))
+			case "last":
+				r, err = storage.Init(d).Last(o.Name)
+			default:
+				r, err = storage.Init(d).Deployed(o.Name)
 			}
 			if err != nil {
 				out = c10Out{Kind: "err", Err: c10ErrClass(err)}
@@ -538,6 +622,9 @@ func (*c10) Oracle(ci, oi any) []hx.Violation {
 	c, obs := ci.(c10Case), oi.(c10Obs)
 	if obs.Panic != "" {
 		return []hx.Violation{{Sig: "C10:panic", What: "driver panicked: " + obs.Panic}}
+	}
+	if c.Kind != "" {
+		return c10CodecOracle(c, obs.Codec)
 	}
 	type k struct {
 		ns, n string
@@ -592,17 +679,21 @@ func (*c10) Oracle(ci, oi any) []hx.Violation {
 		}
 		return true
 	}
-	// Get/Delete read one release back: its label set must be the stored (user) label set itself
-	sameExact := func(a, b c10Rel) bool {
-		if !same(a, b) || len(a.Labels) != len(b.Labels) {
+	// Get/Delete read one release back: its label set must be the stored label map itself, or -
+	// when that carried system keys - the stored label map without them (the user labels)
+	sameMap := func(la, lb map[string]string) bool {
+		if len(la) != len(lb) {
 			return false
 		}
-		for x, y := range a.Labels {
-			if z, ok := b.Labels[x]; !ok || z != y {
+		for x, y := range la {
+			if z, ok := lb[x]; !ok || z != y {
 				return false
 			}
 		}
 		return true
+	}
+	sameExact := func(a, b c10Rel) bool {
+		return same(a, b) && (sameMap(a.Labels, b.Labels) || sameMap(a.Labels, userLabels(b.Labels)))
 	}
 	var vs []hx.Violation
 	bad := func(i int, what string) {
@@ -692,6 +783,36 @@ func (*c10) Oracle(ci, oi any) []hx.Violation {
 			} else if got.Kind != "err" {
 				bad(i, o.Kind+"-missing: reading or deleting a missing key did not fail")
 			}
+		case "last", "deployed":
+			// the newest stored revision of the name (of the deployed ones)
+			var best *c10Rel
+			damaged := false
+			for key, e := range ref {
+				if (mem && cur != "" && key.ns != cur) || key.n != o.Name {
+					continue
+				}
+				if e.bad {
+					damaged = true
+					continue
+				}
+				if o.Kind == "deployed" && e.rel.Status != "deployed" {
+					continue
+				}
+				if best == nil || e.rel.Ver > best.Ver {
+					r := e.rel
+					best = &r
+				}
+			}
+			if damaged {
+				break // the property says nothing about a history with a damaged record
+			}
+			if best == nil {
+				if got.Kind != "err" {
+					bad(i, o.Kind+"-missing: a release name with no (deployed) revision stored did not give an error")
+				}
+			} else if got.Kind != "rel" || !same(*got.Rel, *best) {
+				bad(i, o.Kind+"-newest: did not return the newest stored (deployed) revision of the name")
+			}
 		case "list", "query":
 			var want []c10Rel
 			damagedMatch := false
@@ -755,6 +876,9 @@ func c10CoqRel(x *c10Rel) string {
 
 func (*c10) CoqCase(ci, oi any) string {
 	c, obs := ci.(c10Case), oi.(c10Obs)
+	if c.Kind != "" {
+		return c10CodecCoq(c, obs.Codec)
+	}
 	var ops, outs []string
 	for _, o := range c.Ops {
 		switch o.Kind {
@@ -772,6 +896,10 @@ func (*c10) CoqCase(ci, oi any) string {
 			ops = append(ops, fmt.Sprintf("COp (OGet %s %d)", hx.CoqStr(o.Name), o.Ver))
 		case "delete":
 			ops = append(ops, fmt.Sprintf("COp (ODelete %s %d)", hx.CoqStr(o.Name), o.Ver))
+		case "last":
+			ops = append(ops, "CLast "+hx.CoqStr(o.Name))
+		case "deployed":
+			ops = append(ops, "CDeployed "+hx.CoqStr(o.Name))
 		case "list":
 			ops = append(ops, "COp OList")
 		case "query":
@@ -806,6 +934,9 @@ func (*c10) CoqCase(ci, oi any) string {
 // Shrink drops calls one at a time while the same oracle signature still fires.
 func (*c10) Shrink(ci any, fails func(any) bool) any {
 	c := ci.(c10Case)
+	if c.Kind != "" {
+		return c
+	}
 	for changed := true; changed; {
 		changed = false
 		for i := len(c.Ops) - 1; i >= 0; i-- {
@@ -818,9 +949,13 @@ func (*c10) Shrink(ci any, fails func(any) bool) any {
 	return c
 }
 
-func (*c10) Class(ci, _ any) string {
+func (*c10) Class(ci, oi any) string {
 	c := ci.(c10Case)
+	if c.Kind != "" {
+		return c10CodecClass(c, oi.(c10Obs).Codec)
+	}
 	nss := map[string]bool{}
+	sysk := false
 	for _, o := range c.Ops {
 		switch {
 		case o.Kind == "corrupt":
@@ -829,16 +964,28 @@ func (*c10) Class(ci, _ any) string {
 			return c.Backend + "+namespaces"
 		case o.Rel != nil:
 			nss[o.Rel.NS] = true
+			for k := range o.Rel.Labels {
+				switch k {
+				case "name", "owner", "status", "version", "createdAt", "modifiedAt":
+					sysk = true
+				}
+			}
 		}
 	}
 	if len(nss) > 1 {
 		return c.Backend + "+namespaces"
+	}
+	if sysk {
+		return c.Backend + "+system-keys-in-labels"
 	}
 	return c.Backend
 }
 
 func (*c10) NonTrivial(ci, oi any) bool {
 	c, obs := ci.(c10Case), oi.(c10Obs)
+	if c.Kind != "" {
+		return c10CodecNonTrivial(c, obs.Codec)
+	}
 	w, rd := false, false
 	for i, o := range obs.Outs {
 		if i < len(c.Ops) && (c.Ops[i].Kind == "create" || c.Ops[i].Kind == "update" || c.Ops[i].Kind == "rmw") && o.Kind == "ok" {
